@@ -7,6 +7,7 @@ receiving end, reading from three kinds of source.
 
 from __future__ import annotations
 
+import dataclasses
 import io
 
 from . import core, driver, gen, steps, streams, universe, workload
@@ -106,11 +107,17 @@ def run_task(task: dict) -> dict:
     runs = 0
     for qn in task["classes"]:
         cls = universe.by_name(qn)
-        for k_inst in range(task["instances"]):
+        has_blob = bool(universe.features(cls) & {"bytes", "records"}) or any(
+            f.metadata.get("kafka_type") in ("bytes", "records") for c in universe.reachable_classes(cls) for f in dataclasses.fields(c))
+        for k_inst in range(task["instances"] + (1 if has_blob else 0)):
             run_seed = core.derive_seed(PROP, task["seed"], qn, k_inst)
             rng = core.random.Random(run_seed)
             runs += 1
-            g = workload.make_golden(rng, cls, stats=stats)
+            shape = None
+            if k_inst == task["instances"]:
+                # classes that can carry a blob get one extra instance with a >= 64 KiB value
+                shape = {"name": "huge", "fan": 1, "str": "huge", "null_rate": 0.05, "nondefault_rate": 0.7, "budget": 20}
+            g = workload.make_golden(rng, cls, shape=shape, stats=stats)
             if g is None:
                 log.add("discard", qn, k_inst)
                 continue
